@@ -135,6 +135,9 @@ def _val(v):
         return True
     if z3.is_false(v):
         return False
+    if z3.is_rational_value(v):
+        from fractions import Fraction
+        return Fraction(v.numerator_as_long(), v.denominator_as_long())
     return str(v)
 
 
@@ -235,6 +238,8 @@ def to_z3_value(var, val):
         return z3.FPVal(val, srt)
     if srt == z3.BoolSort():
         return z3.BoolVal(bool(val))
+    if srt == z3.RealSort():
+        return z3.RealVal(str(val))
     raise ValueError("sort")
 
 
